@@ -118,14 +118,22 @@ class RenameAppLabel(BaseMutation):
         simulation.app_label = new_app_label
 
         # Go through the model signatures and update any that have a
-        # related_model property referencing the old app label.
+        # related_model property referencing a moved model under the old
+        # app label. Models left behind under the old label (when
+        # model_names was provided) keep their references.
+        moved_model_names = set(
+            model_sig.model_name
+            for model_sig in model_sigs
+        )
+
         for cur_app_sig in project_sig.app_sigs:
             for cur_model_sig in cur_app_sig.model_sigs:
                 for cur_field_sig in cur_model_sig.field_sigs:
                     if cur_field_sig.related_model:
                         parts = cur_field_sig.related_model.split('.', 1)
 
-                        if parts[0] == old_app_label:
+                        if (parts[0] == old_app_label and
+                            parts[1] in moved_model_names):
                             cur_field_sig.related_model = \
                                 '%s.%s' % (new_app_label, parts[1])
 
